@@ -148,9 +148,20 @@ theorem sort_lift_sorted (le : ρ → ρ → Bool) (hle : TotalPreorder le) {leg
     (h : KMerge le legs out) : out.Pairwise (fun x y => le x y = true) :=
   ParSortLift.kmerge_sorted le hle hs h
 
-/-- The hypothesis is needed — the model-level witness of the confirmed defect that a
-    descending sort lifted into the legs orders nulls last while the merge built for it expects
-    them first: a leg sorted under another order yields an unsorted merge. -/
+/-- The code establishes the hypothesis of `sort_lift_sorted`: since fix 8f641a47c a sort is
+    copied into the legs (and replaced by a merge) only when it is a plain ascending
+    single-key sort — not `-r`, not nulls-first, not a descending key — the only form whose
+    order (sort.Op: ascending, nulls last) is the order of the merge the kernel builds for it.
+    Re-checked on the regenerated guards of liftIntoParPaths' dag.Sort case. -/
+theorem sort_lift_only_plain_ascending :
+    Zed.Generated.C10.sortLiftGuards =
+      ["len(op.Args) != 1", "op.Reverse || op.NullsFirst || op.Args[0].Order == order.Desc"] := by
+  decide
+
+/-- The hypothesis is needed: a leg sorted under another order than the merge's yields an
+    unsorted merge.  (A statement about the model on legs violating the hypothesis; before
+    fix 8f641a47c a descending sort was lifted although sort.Op orders nulls last and the
+    merge built for it expects them first — exactly this situation.) -/
 theorem not_sort_lift_sorted_foreign_order :
     ∃ (legs : List (List Int)) (out : List Int),
       KMerge (fun a b => decide (a ≤ b)) legs out ∧ ¬ out.Pairwise (fun x y => decide (x ≤ y) = true) :=
